@@ -51,7 +51,7 @@ CHECKS = [
   "Single-node tier only (several nodes drawing concurrently / leader changes are not exercised). Monotonicity is judged per stream (next-id stream, range stream).",
   "property-based testing (proptest): history invariant monitor over all issued ids in real node processes"),
  chk("C08", "E3 real processes on loopback (leader + follower)", "exploration",
-  "Generated schedules on real rnacos processes: leader with snapshot threshold 10/20/35, generated write histories (config publish/remove over 24 keys, namespace add/update/remove), a follower that joins before the writes (optionally killed during them) or only afterwards; after the quiescence rule the follower's served data (every key, user-created namespaces, raft members) must equal the leader's, and again after the follower is restarted. A membership difference before the follower's first restart after a really installed snapshot, and a divergence that disappears when the schedule is re-run with compaction kept out of the way of applies (root cause shared with C01), are the recorded open findings; everything else is a violation.",
+  "Generated schedules on real rnacos processes: leader with snapshot threshold 10/20/35/60, generated write histories (config publish/remove over 24 keys, namespace add/update/remove), a follower that joins before the writes (optionally killed during them) or only afterwards; after the quiescence rule the follower's served data (every key, user-created namespaces, raft members) must equal the leader's, and again after the follower is restarted. A membership difference before the follower's first restart after a really installed snapshot, and a divergence that disappears when the schedule is re-run with compaction kept out of the way of applies (root cause shared with C01), are the recorded open findings; everything else is a violation.",
   "Message schedules between processes are sampled, not controlled. The harness keeps a trickle of sentinel writes going while it waits (an idle leader does not catch a lagging node up) and repeats a lost join request once by restarting the joiner.",
   "property-based testing (proptest-generated schedules) with a leader/follower differential oracle on real processes"),
  chk("C09", "E1 bare ConfigActor", "exploration",
